@@ -7,6 +7,7 @@ CONSTANTS
   Endpoints = {"pause", "continue", "component", "field"}
   PauseWaits = TRUE
   HoldCtl = FALSE
+  EarlyWalk = {}
   Atomic = FALSE
   Record = FALSE
 INVARIANT InspectionHeld
